@@ -29,6 +29,7 @@ type Case struct {
 	Moves []string `json:"moves,omitempty"`
 	Bad   string   `json:"bad,omitempty"`
 	Prev  string   `json:"prev,omitempty"` // text: parsed into the same Board value before FEN (the tuner reuses one board)
+	More  []string `json:"more,omitempty"` // uci: further `position fen` commands of the same session, each followed by `fen`
 	Raw   []byte   `json:"raw,omitempty"`
 }
 
@@ -155,6 +156,28 @@ func checkUCI(c Case, rec *evid.Rec) error {
 		}
 		if rec != nil {
 			rec.Class("uci_rejected_command")
+		}
+	}
+	if len(c.More) > 0 {
+		// one driver session, several positions in a row: each must be reported back exactly
+		var script []string
+		all := append([]string{c.FEN}, c.More...)
+		for _, f := range all {
+			script = append(script, "position fen "+f, "fen")
+		}
+		out, errOut := eng.UCI(script)
+		got := strings.Split(strings.TrimSpace(out), "\n")
+		for i, f := range all {
+			if i >= len(got) || got[i] != f {
+				g := ""
+				if i < len(got) {
+					g = got[i]
+				}
+				return fmt.Errorf("session %q: position command %d (`position fen %s`) then `fen` printed %q (stderr %q)", all, i, f, g, errOut)
+			}
+		}
+		if rec != nil {
+			rec.Class("uci_several_positions_in_one_session")
 		}
 	}
 	if rec != nil {
@@ -378,6 +401,15 @@ func TestC11(t *testing.T) {
 				p = gen.Playout(t, r, 10, nil)
 			}
 			c := Case{Kind: "uci", FEN: p.FEN()}
+			if gen.Chance(t, 1, 2, "session") {
+				for k := gen.Draw(t, 1, 3, "more"); k > 0; k-- {
+					r2, _ := gen.Root(t)
+					q := gen.Playout(t, r2, 6, nil)
+					if q.Half <= 100 {
+						c.More = append(c.More, q.FEN())
+					}
+				}
+			}
 			switch gen.Draw(t, 0, 7, "bad") {
 			case 0:
 				c.Bad = "position fen " + string(mutateRejectable(t))
